@@ -58,3 +58,19 @@ Theorem c08_status_ascii : forall m, Forall (fun c => (c < 256)%N) m ->
   Forall (fun c => (33 <= c <= 126)%N) (path_escape m).
 Proof. exact escaped_is_printable_ascii. Qed.
 Print Assumptions c08_status_ascii.
+
+(* ---- finding F33 (recorded, not repaired): who writes to the response, and when (Model/WebWrite.v) ---- *)
+From GB Require Import Model.WebWrite Proofs.WebWriteProofs.
+(* the code as it is - Send's writer goroutine is abandoned when the context ends - has a run in which the data frame lands
+   behind the trailer, after the handler has returned; the witness is the schedule the part slowwriter forces on the bridge *)
+Theorem c08_abandoned_send_refuted : exists s, wrun false f33_schedule w_init = Some s /\
+  log s = [1; 0] /\ frames_ok (log s) = false /\ late s = 1%nat /\ returned s = true.
+Proof. exact abandoned_send_refuted. Qed.
+Print Assumptions c08_abandoned_send_refuted.
+
+(* with a write lock and a finished flag (what a repair would introduce) EVERY run gives data frames followed by exactly one
+   trailer frame, nothing is written after the handler returned, and the handler returns only after the trailer *)
+Theorem c08_locked_discipline_ok : forall l s, wrun true l w_init = Some s ->
+  late s = O /\ (trailer s = true -> frames_ok (log s) = true) /\ (trailer s = false -> returned s = false).
+Proof. exact locked_runs_ok. Qed.
+Print Assumptions c08_locked_discipline_ok.
